@@ -220,36 +220,57 @@ def run(E: Engine, rep: Report, tier: str) -> dict:
 
     # ---------------------------------------------------------------- DIV0
     n_div = 0
-    for c in [base] + subs:
-        for fs in c.methods.values():
-            for f in fs:
-                ab = abstractor(E.flow(f))
-                for n in own_nodes(f):
-                    if isinstance(n, ast.BinOp) and isinstance(n.op, (ast.Div, ast.FloorDiv, ast.Mod)):
-                        d = n.right
-                        # (self._duration - c) or (self.duration - c), c >= 1  => may be zero under _duration >= 1
-                        if isinstance(d, ast.BinOp) and isinstance(d.op, ast.Sub) and norm(d.left) in ("self._duration", "self.duration") and isinstance(d.right, ast.Constant) and isinstance(d.right.value, (int, float)) and d.right.value >= 1:
-                            n_div += 1
-                            dnf = ab.enclosing_conditions(n)
-                            guarded = all(any(l.atom is not None and l.atom.rel in ("Gt", "GtE", "NotEq") and any(r in ("self._duration", "self.duration") for r in l.atom.lhs.roots) for l in conj_) for conj_ in dnf) and dnf != [[]]
-                            rep.check(guarded, "DIV0", f"{f.short}|{norm(d)}", "denominator guarded against zero", f"`{norm(n)[:80]}`: the denominator {norm(d)} is 0 for a waveform of {d.right.value} sample(s), which the class invariant (_duration >= 1) allows: the samples become NaN/inf", E.where(f, n))
-                        elif isinstance(d, ast.Call) and (dotted(d.func) or "") == "max" and any("_duration" in norm(a) or ".duration" in norm(a) for a in d.args):
-                            n_div += 1
-                            consts = [a.value for a in d.args if isinstance(a, ast.Constant) and isinstance(a.value, (int, float))]
-                            rep.check(any(k > 0 for k in consts), "DIV0", f"{f.short}|{norm(d)}", "denominator bounded away from zero by max(..., c>0)", f"`{norm(d)}` can be zero", E.where(f, n))
-    # the same invariant for waveform *users* in pulse.py / waveforms.py: (<waveform>.duration - c) with c >= 1
-    for f in P.all_functions():
-        if f.module.name not in ("pulser.pulse", WF) or (f.cls is not None and (f.cls is base or f.cls in subs)):
+    # every denominator (the canonical term keeps x / d as x * inv(d)), with locals inlined: (<w>.duration - c) with
+    # c >= 1 can be zero for a waveform of c samples unless the path condition bounds the duration away from c;
+    # max(<duration expr>, k) with k > 0 is bounded away from zero by construction
+    seen_div: set = set()
+    scope = [f for c in [base] + subs for fs in c.methods.values() for f in fs]
+    scope += [f for f in P.all_functions() if f.module.name in ("pulser.pulse", WF) and not (f.cls is not None and (f.cls is base or f.cls in subs))]
+    for f in scope:
+        if f.kind == "overload":
             continue
-        ab = None
-        for n in own_nodes(f):
-            if isinstance(n, ast.BinOp) and isinstance(n.op, (ast.Div, ast.FloorDiv, ast.Mod)):
-                d = n.right
-                if isinstance(d, ast.BinOp) and isinstance(d.op, ast.Sub) and isinstance(d.left, ast.Attribute) and d.left.attr in ("duration", "_duration") and isinstance(d.right, ast.Constant) and isinstance(d.right.value, (int, float)) and d.right.value >= 1:
-                    n_div += 1
-                    ab = ab or abstractor(E.flow(f))
-                    dnf = ab.enclosing_conditions(n)
-                    guarded = dnf != [[]] and all(any(l.atom is not None and l.atom.rel in ("Gt", "GtE", "NotEq") and norm(d.left) in l.text for l in conj_) for conj_ in dnf)
-                    rep.check(guarded, "DIV0", f"{f.short}|{norm(d)}", "denominator guarded against zero", f"`{norm(n)[:80]}`: {norm(d)} is 0 for a waveform of {d.right.value} sample(s) (durations >= 1 are valid): the result becomes NaN/inf", E.where(f, n))
+        try:
+            Sf = S(E, f, inline=False)
+        except RecursionError:
+            continue
+        for l in Sf.log:
+            for top in (l.value, l.target):
+                if top is None:
+                    continue
+                for t in sym.subterms(top):
+                    if t[0] != "inv":
+                        continue
+                    d = unobj(t[1])
+                    m_sub = is_(d, "Q_w.duration + Q_k") or is_(d, "Q_w._duration + Q_k")
+                    if m_sub is not None and m_sub["Q_k"][0] == "const" and isinstance(m_sub["Q_k"][1], (int, float)):
+                        m_sub = dict(m_sub)
+                        m_sub["Q_c"] = ("const", -m_sub["Q_k"][1])
+                    else:
+                        m_sub = None
+                    mm = bounds._minmax(d)
+                    if m_sub is not None and m_sub["Q_c"][1] >= 1:
+                        key = (f.short, sh(d, 60))
+                        if key in seen_div:
+                            continue
+                        seen_div.add(key)
+                        n_div += 1
+                        w_, c_ = m_sub["Q_w"], m_sub["Q_c"][1]
+                        durs = (("attr", w_, "duration"), ("attr", w_, "_duration"))
+                        guarded = False
+                        for x in sym.conj_of(l.cond):
+                            if x[0] == "cmp" and x[1] in ("Lt", "LtE", "NotEq") and any(dd in (x[2], x[3]) for dd in durs):
+                                other = x[3] if x[2] in durs else x[2]
+                                # c < duration, c+? <= duration, duration != c
+                                if other[0] == "const" and ((x[1] == "Lt" and x[3] in durs and other[1] >= c_) or (x[1] == "LtE" and x[3] in durs and other[1] > c_) or (x[1] == "NotEq" and other[1] == c_)):
+                                    guarded = True
+                        rep.check(guarded, "DIV0", f"{f.short}|{sh(d, 60)}", "denominator guarded against zero", f"`{sh(t, 80)}`: the denominator {sh(d, 60)} is 0 for a waveform of {c_} sample(s), which the class invariant (duration >= 1) allows: the result becomes NaN/inf", E.where(f, l.node))
+                    elif mm is not None and mm[0] == "max" and any(sym.contains(a, ("attr", ("name", "self"), "_duration")) or any(x[0] == "attr" and x[2] in ("duration", "_duration") for x in sym.subterms(a)) for a in mm[1]):
+                        key = (f.short, sh(d, 60))
+                        if key in seen_div:
+                            continue
+                        seen_div.add(key)
+                        n_div += 1
+                        consts = [a[1] for a in mm[1] if a[0] == "const" and isinstance(a[1], (int, float))]
+                        rep.check(any(k > 0 for k in consts), "DIV0", f"{f.short}|{sh(d, 60)}", "denominator bounded away from zero by max(..., c>0)", f"`{sh(d, 60)}` can be zero", E.where(f, l.node))
     rep.floor("DIV0", 1)
     return {"waveform_classes": n_cls, "denominators_checked": n_div}
